@@ -23,8 +23,14 @@ Fixpoint lookup_kv (k v : N) (tab : list (N * N * N)) : option N :=
 Definition bad_mr : mroutine := mkMR ItBad WrBad WrBad false.
 Definition bad_lr : lroutine := mkLR WrBad false.
 
-Definition map_routine (kk vk : N) : mroutine :=
-  let id := match lookup_kv kk vk map_dispatch_tab with Some r => r | None => map_default end in
+(* updateMapAppendFunc: table lookup by (K.T, V.T); []byte values take the
+   default routine when the guard is present (map_binary_generic) *)
+Definition map_routine (kt vt : ty) : mroutine :=
+  let id := if map_binary_generic && is_binary vt then map_default
+            else match lookup_kv (kind kt) (kind vt) map_dispatch_tab with
+                 | Some r => r
+                 | None => map_default
+                 end in
   match assocN id map_routines with Some r => r | None => bad_mr end.
 
 Definition list_routine (ek : N) : lroutine :=
@@ -32,15 +38,9 @@ Definition list_routine (ek : N) : lroutine :=
   match assocN id list_routines with Some r => r | None => bad_lr end.
 
 (* ---- writers ---- *)
-(* appendAny / appendStruct: switch t.T for SimpleType *)
+(* appendAny / appendStruct: switch t.T for SimpleType (table read from append.go) *)
 Definition simple_wr (k : N) : wr :=
-  if (k =? tBYTE) || (k =? tBOOL) then WrByte
-  else if k =? tI16 then WrU16
-  else if k =? tI32 then WrU32
-  else if k =? tENUM then WrEnum
-  else if (k =? tI64) || (k =? tDOUBLE) then WrU64
-  else if k =? tSTRING then WrStr
-  else WrBad.
+  match assocN k simple_wr_tab with Some w => w | None => WrBad end.
 
 Definition wr_apply (w : wr) (v : val) : list N :=
   match w, v with
@@ -82,7 +82,7 @@ Fixpoint append_any (env : senv) (t : ty) (v : val) {struct v} : list N :=
   | VM om =>
       match t with
       | TMap kt vt =>
-          let r := map_routine (kind kt) (kind vt) in
+          let r := map_routine kt vt in
           if m_shape r then
             match om with
             | None => wt kt :: wt vt :: be_put 4 0
